@@ -451,7 +451,8 @@ def fix_reimported_names(source: str) -> str:
 
             if trace_result := trace_origin(name, module_source, __all__=True):
                 *_, module_import_node = trace_result
-                if isinstance(module_import_node, ast.ImportFrom):
+                # A relative import is relative to the module it was found in, not to this one
+                if isinstance(module_import_node, ast.ImportFrom) and module_import_node.level == 0:
                     # Remove this alias from node.names
                     # Add this alias to things that should be imported from module_import_node.module
                     if (
